@@ -152,6 +152,8 @@ func randTime(r *run.Rand, base time.Time, spread int) time.Time {
 		d = time.Duration(r.Range(0, 86399)) * time.Second
 	case 1: // same year
 		d = time.Duration(r.Range(0, 365*86400)) * time.Second
+	case 3: // the first five hours of the day
+		d = time.Duration(r.Range(0, 5*3600-1)) * time.Second
 	default: // decades
 		d = time.Duration(r.Range(-20*365*86400, 14*365*86400)) * time.Second
 	}
@@ -163,6 +165,13 @@ func dateKeys(r *run.Rand, n int, layout int, sameInstantPairs bool) []string {
 	spread := r.Intn(3)
 	l := dateLayouts[layout]
 	hasZone := strings.Contains(l, "-07")
+	if !hasZone && r.Intn(4) == 0 {
+		// wall-clock times in the small hours of a day on which some zones skip or repeat an hour (US, New Zealand,
+		// Europe, 2021): keys without a zone are plain calendar times, whatever zone the process runs in
+		d := [][3]int{{2021, 3, 14}, {2021, 9, 26}, {2021, 3, 28}, {2021, 11, 7}, {2021, 4, 4}, {2021, 10, 31}}[r.Intn(6)]
+		base = time.Date(d[0], time.Month(d[1]), d[2], 0, 0, 0, 0, time.UTC)
+		spread = 3
+	}
 	var out []string
 	var last time.Time
 	for i := 0; i < n; i++ {
